@@ -22,6 +22,7 @@ import (
 	"os/exec"
 	"runtime"
 	"sync"
+	"syscall"
 	"time"
 
 	"github.com/ErdemOzgen/blackdagger/internal/dag"
@@ -44,18 +45,43 @@ type StepC struct {
 	IntervalUs int   `json:"ivl"`    // its interval
 	Pre        bool  `json:"pre"`    // outcome of the step's precondition
 	HasPre     bool  `json:"haspre"`
-	Sfail      bool  `json:"sfail"` // node.setup fails (stdout file in a directory that does not exist)
-	Fails      int   `json:"fails"` // the first Fails attempts fail; -1: every attempt fails
+	Sfail      bool  `json:"sfail"`         // node.setup fails (stdout file in a directory that does not exist)
+	Fails      int   `json:"fails"`         // the first Fails attempts fail; -1: every attempt fails
 	Out        bool  `json:"out,omitempty"` // the step has an `output:` variable; the executor prints a few bytes
+	// stop / timeout streams
+	Repeat       bool   `json:"repeat,omitempty"`     // repeatPolicy.repeat
+	RepeatIvlUs  int    `json:"rivl,omitempty"`       // repeatPolicy.interval
+	SigOnStop    string `json:"sigonstop,omitempty"`  // signalOnStop (e.g. SIGINT)
+	Ignore       bool   `json:"ignore,omitempty"`     // the command ignores the stop signal (ends only by itself or by SIGKILL)
+	DurUs        int    `json:"dur,omitempty"`        // policy hold: how long the command runs if nobody ends it
+	SlowPreUs    int    `json:"slowpre,omitempty"`    // the (met) precondition takes this long to evaluate
+	SlowCreateUs int    `json:"slowcreate,omitempty"` // the executor's creation takes this long (under the node lock)
+}
+
+// HandC: one lifecycle handler
+type HandC struct {
+	On    bool `json:"on"`
+	Fail  bool `json:"fail,omitempty"`
+	DurUs int  `json:"dur,omitempty"`
+}
+
+// StopC: a stop request injected by the driver (Scheduler.Signal, as the agent does)
+type StopC struct {
+	At           int `json:"at"`                   // fire when the visible log has reached this many events (0 = at once)
+	DelayUs      int `json:"delay"`                // ... plus this delay
+	Again        int `json:"again,omitempty"`      // further Signal calls: 1 = SIGKILL escalation (allowOverride=false)
+	AgainDelayUs int `json:"againdelay,omitempty"` // ... this long after the first returned
 }
 
 type Ev struct {
-	E    string `json:"e"` // "s" Run entered, "e" Run returned, "k" Kill called
-	I    int    `json:"i"`
-	A    int    `json:"a,omitempty"`  // attempt number (1-based)
-	Ok   bool   `json:"ok,omitempty"` // for "e"
-	T    int64  `json:"t"`            // microseconds since the start of the run (monotonic clock)
-	Snap []int  `json:"snap,omitempty"`
+	E string `json:"e"` // "s" Run entered, "e" Run returned, "k" Kill called, "x" Run refused (expired context),
+	// "hs"/"he" handler Run entered/returned (I = 0 exit, 1 success, 2 failure, 3 cancel), "sc"/"sr" Signal called/returned
+	Sig  int   `json:"sig,omitempty"` // for "k" and "sc": signal number
+	I    int   `json:"i"`
+	A    int   `json:"a,omitempty"`  // attempt number (1-based)
+	Ok   bool  `json:"ok,omitempty"` // for "e"
+	T    int64 `json:"t"`            // microseconds since the start of the run (monotonic clock)
+	Snap []int `json:"snap,omitempty"`
 }
 
 type Fin struct {
@@ -73,16 +99,22 @@ type Case struct {
 	Done      bool    `json:"done"`   // Schedule is given a done channel (as the agent does)
 	Policy    string  `json:"policy"` // imm | rnd | quiet
 	PauseUs   int     `json:"pause"`
-	Rs        uint64  `json:"rs"` // seed of the run's own random choices
-	Fresh     bool    `json:"fresh,omitempty"` // run in a fresh process (node ids 1..n as in an agent process)
+	Rs        uint64  `json:"rs"`                 // seed of the run's own random choices
+	Fresh     bool    `json:"fresh,omitempty"`    // run in a fresh process (node ids 1..n as in an agent process)
+	Handlers  []HandC `json:"handlers,omitempty"` // exit, success, failure, cancel
+	Stop      *StopC  `json:"stop,omitempty"`
+	TimeoutUs int     `json:"timeout,omitempty"`
 	// observed
-	Events []Ev  `json:"events"`
-	Final  []Fin `json:"final"`
-	Err    bool  `json:"err"`
-	Status int   `json:"status"`
-	Hung   bool  `json:"hung,omitempty"`
-	WallUs int64 `json:"wall"`
-	Note   string `json:"note,omitempty"`
+	Events    []Ev   `json:"events"`
+	Final     []Fin  `json:"final"`
+	Err       bool   `json:"err"`
+	Status    int    `json:"status"`
+	HFinal    []int  `json:"hfinal,omitempty"` // final status of the handler nodes (exit, success, failure, cancel; -1 = not configured)
+	StatusEnd int    `json:"status_end"`       // Status(g) after a late stop request (if any) has returned
+	StartedUs int64  `json:"started"`          // when Schedule started the graph (the DAG deadline is this + timeout)
+	Hung      bool   `json:"hung,omitempty"`
+	WallUs    int64  `json:"wall"`
+	Note      string `json:"note,omitempty"`
 }
 
 // ---------------------------------------------------------------------------------------------
@@ -90,34 +122,61 @@ type Case struct {
 // ---------------------------------------------------------------------------------------------
 
 type world struct {
-	mu      sync.Mutex
-	t0      time.Time
-	evs     []Ev
-	att     map[int]int
-	c       *Case
-	g       *scheduler.ExecutionGraph
-	rng     *vh.Rng
-	blocked []chan struct{}
-	lastLen int
-	stop    chan struct{}
+	mu        sync.Mutex
+	t0        time.Time
+	evs       []Ev
+	att       map[int]int
+	c         *Case
+	g         *scheduler.ExecutionGraph
+	rng       *vh.Rng
+	blocked   []chan struct{}
+	lastLen   int
+	stop      chan struct{}
+	sc        *scheduler.Scheduler
+	stopFired bool
+	stopDone  chan struct{}
 }
 
 var worlds sync.Map // run id -> *world
 
 type scripted struct {
-	w      *world
-	idx    int
-	ctx    context.Context
-	stdout io.Writer
+	w       *world
+	idx     int // step index, or -1-h for handler h
+	ctx     context.Context
+	stdout  io.Writer
+	mu      sync.Mutex
+	killed  chan struct{}
+	kdone   bool
+	started bool
 }
 
 func (s *scripted) SetStdout(o io.Writer) { s.stdout = o }
-func (s *scripted) SetStderr(io.Writer) {}
+func (s *scripted) SetStderr(io.Writer)   {}
+
+func signum(sig os.Signal) int {
+	if x, ok := sig.(syscall.Signal); ok {
+		return int(x)
+	}
+	return -1
+}
+
 func (s *scripted) Kill(sig os.Signal) error {
 	w := s.w
-	w.mu.Lock()
-	w.evs = append(w.evs, Ev{E: "k", I: s.idx, T: time.Since(w.t0).Microseconds()})
-	w.mu.Unlock()
+	w.log(Ev{E: "k", I: s.idx, Sig: signum(sig)})
+	ignore := s.idx >= 0 && w.c.Steps[s.idx].Ignore && signum(sig) != int(syscall.SIGKILL)
+	s.mu.Lock()
+	if !s.started { // like the command executor: no process yet, the signal is lost (command.go:68-75)
+		ignore = true
+	}
+	s.mu.Unlock()
+	if !ignore {
+		s.mu.Lock()
+		if !s.kdone {
+			s.kdone = true
+			close(s.killed)
+		}
+		s.mu.Unlock()
+	}
 	return nil
 }
 
@@ -130,13 +189,49 @@ func (w *world) snapshot() []int {
 	return out
 }
 
+// log appends an event (stamped under the lock) and fires the scripted stop when its instant is reached
+func (w *world) log(e Ev) {
+	w.mu.Lock()
+	e.T = time.Since(w.t0).Microseconds()
+	w.evs = append(w.evs, e)
+	fire := w.c.Stop != nil && !w.stopFired && len(w.evs) >= w.c.Stop.At
+	if fire {
+		w.stopFired = true
+	}
+	w.mu.Unlock()
+	if fire {
+		go w.doStop()
+	}
+}
+
+func (w *world) doStop() {
+	st := w.c.Stop
+	time.Sleep(time.Duration(st.DelayUs) * time.Microsecond)
+	w.log(Ev{E: "sc", Sig: int(syscall.SIGTERM)})
+	w.sc.Signal(w.g, syscall.SIGTERM, nil, true)
+	w.log(Ev{E: "sr"})
+	for k := 0; k < st.Again; k++ {
+		time.Sleep(time.Duration(st.AgainDelayUs) * time.Microsecond)
+		w.log(Ev{E: "sc", Sig: int(syscall.SIGKILL)})
+		w.sc.Signal(w.g, syscall.SIGKILL, nil, false)
+		w.log(Ev{E: "sr"})
+	}
+	close(w.stopDone)
+}
+
 func (s *scripted) Run() error {
 	w := s.w
+	if s.ctx.Err() != nil { // like os/exec: a command is not started with an expired context
+		w.log(Ev{E: "x", I: s.idx})
+		return s.ctx.Err()
+	}
+	if s.idx < 0 {
+		return s.runHandler()
+	}
 	w.mu.Lock()
 	w.att[s.idx]++
 	a := w.att[s.idx]
 	snap := w.snapshot()
-	w.evs = append(w.evs, Ev{E: "s", I: s.idx, A: a, T: time.Since(w.t0).Microseconds(), Snap: snap})
 	var wait chan struct{}
 	var d time.Duration
 	switch w.c.Policy {
@@ -145,27 +240,61 @@ func (s *scripted) Run() error {
 	case "quiet":
 		wait = make(chan struct{})
 		w.blocked = append(w.blocked, wait)
+	case "hold":
+		d = time.Duration(w.c.Steps[s.idx].DurUs) * time.Microsecond
 	}
 	w.mu.Unlock()
+	s.mu.Lock()
+	s.started = true
+	s.mu.Unlock()
+	w.log(Ev{E: "s", I: s.idx, A: a, Snap: snap})
+	var err error
 	if wait != nil {
 		select {
 		case <-wait:
 		case <-s.ctx.Done():
+			err = s.ctx.Err()
+		case <-s.killed:
+			err = errors.New("killed")
 		}
 	} else if d > 0 {
-		time.Sleep(d)
+		select {
+		case <-time.After(d):
+		case <-s.ctx.Done():
+			err = s.ctx.Err()
+		case <-s.killed:
+			err = errors.New("killed")
+		}
 	}
 	if w.c.Steps[s.idx].Out && s.stdout != nil {
 		fmt.Fprintf(s.stdout, "out-of-step-%d attempt %d\n", s.idx, a)
 	}
-	w.mu.Lock()
-	var err error
 	f := w.c.Steps[s.idx].Fails
-	if f < 0 || a <= f {
+	if err == nil && (f < 0 || a <= f) {
 		err = errors.New("scripted failure")
 	}
-	w.evs = append(w.evs, Ev{E: "e", I: s.idx, A: a, Ok: err == nil, T: time.Since(w.t0).Microseconds()})
-	w.mu.Unlock()
+	w.log(Ev{E: "e", I: s.idx, A: a, Ok: err == nil})
+	return err
+}
+
+func (s *scripted) runHandler() error {
+	w := s.w
+	h := -1 - s.idx
+	st := int(w.sc.Status(w.g))
+	w.log(Ev{E: "hs", I: h, A: st})
+	var err error
+	d := time.Duration(w.c.Handlers[h].DurUs) * time.Microsecond
+	if d > 0 {
+		select {
+		case <-time.After(d):
+		case <-s.ctx.Done():
+			err = s.ctx.Err()
+		}
+	}
+	if err == nil && w.c.Handlers[h].Fail {
+		err = errors.New("scripted handler failure")
+	}
+	w.log(Ev{E: "he", I: h, Ok: err == nil})
 	return err
 }
 
@@ -196,6 +325,9 @@ func (w *world) releaser(quiet time.Duration) {
 
 var quietLogger = logger.NewLogger(logger.NewLoggerArgs{Quiet: true})
 
+var handlerNames = []string{"onExit", "onSuccess", "onFailure", "onCancel"}
+var handlerTypes = []dag.HandlerType{dag.HandlerOnExit, dag.HandlerOnSuccess, dag.HandlerOnFailure, dag.HandlerOnCancel}
+
 func runCase(c *Case, id int, logDir string) {
 	n := len(c.Steps)
 	steps := make([]dag.Step, n)
@@ -210,10 +342,17 @@ func runCase(c *Case, id int, logDir string) {
 		if sc.Retry {
 			s.RetryPolicy = &dag.RetryPolicy{Limit: sc.Rlimit, Interval: time.Duration(sc.IntervalUs) * time.Microsecond}
 		}
+		if sc.Repeat {
+			s.RepeatPolicy = dag.RepeatPolicy{Repeat: true, Interval: time.Duration(sc.RepeatIvlUs) * time.Microsecond}
+		}
+		s.SignalOnStop = sc.SigOnStop
 		if sc.HasPre {
-			if sc.Pre {
+			switch {
+			case sc.Pre && sc.SlowPreUs > 0: // evaluated by running this binary: prints 1 after the given time
+				s.Preconditions = []dag.Condition{{Condition: fmt.Sprintf("`%s - slowpre %d`", os.Args[0], sc.SlowPreUs), Expected: "1"}}
+			case sc.Pre:
 				s.Preconditions = []dag.Condition{{Condition: "$VERIF_PRE_MET", Expected: "1"}}
-			} else {
+			default:
 				s.Preconditions = []dag.Condition{{Condition: "$VERIF_PRE_UNMET", Expected: "1"}}
 			}
 		}
@@ -225,18 +364,39 @@ func runCase(c *Case, id int, logDir string) {
 		}
 		steps[i] = s
 	}
-	c.Events, c.Final, c.Err, c.Status, c.Hung, c.Note = nil, nil, false, 0, false, ""
+	c.Events, c.Final, c.Err, c.Status, c.Hung, c.Note, c.HFinal = nil, nil, false, 0, false, "", nil
 	g, err := scheduler.NewExecutionGraph(quietLogger, steps...)
 	if err != nil {
 		c.Note = "graph refused: " + err.Error()
 		return
 	}
-	w := &world{t0: time.Now(), att: map[int]int{}, c: c, g: g, rng: vh.NewRng(c.Rs), stop: make(chan struct{})}
+	w := &world{t0: time.Now(), att: map[int]int{}, c: c, g: g, rng: vh.NewRng(c.Rs), stop: make(chan struct{}),
+		stopDone: make(chan struct{})}
 	worlds.Store(id, w)
 	defer worlds.Delete(id)
 	pause := time.Duration(c.PauseUs) * time.Microsecond
-	sc := scheduler.New(&scheduler.Config{LogDir: logDir, MaxActiveRuns: c.MaxActive, Dry: c.Dry, Logger: quietLogger})
+	cfg := &scheduler.Config{LogDir: logDir, MaxActiveRuns: c.MaxActive, Dry: c.Dry, Logger: quietLogger,
+		Timeout: time.Duration(c.TimeoutUs) * time.Microsecond}
+	for h := range c.Handlers {
+		if !c.Handlers[h].On {
+			continue
+		}
+		st := &dag.Step{Name: handlerNames[h],
+			ExecutorConfig: dag.ExecutorConfig{Type: "verifscript", Config: map[string]any{"w": id, "i": -1 - h}}}
+		switch h {
+		case 0:
+			cfg.OnExit = st
+		case 1:
+			cfg.OnSuccess = st
+		case 2:
+			cfg.OnFailure = st
+		case 3:
+			cfg.OnCancel = st
+		}
+	}
+	sc := scheduler.New(cfg)
 	sc.VerifSetPause(pause)
+	w.sc = sc
 	ctx, cancel := context.WithCancel(dag.NewContext(context.Background(), nil, nil, "", ""))
 	defer cancel()
 	var done chan *scheduler.Node
@@ -252,6 +412,15 @@ func runCase(c *Case, id int, logDir string) {
 	}
 	fin := make(chan error, 1)
 	go func() { fin <- sc.Schedule(ctx, g, done) }()
+	if c.Stop != nil && c.Stop.At == 0 {
+		w.mu.Lock()
+		fire := !w.stopFired
+		w.stopFired = true
+		w.mu.Unlock()
+		if fire {
+			go w.doStop()
+		}
+	}
 	var serr error
 	select {
 	case serr = <-fin:
@@ -271,6 +440,17 @@ func runCase(c *Case, id int, logDir string) {
 	if done != nil && c.Note == "" {
 		close(done)
 	}
+	c.Status = int(sc.Status(g)) // before a late stop can change it: the stop below is waited for afterwards
+	w.mu.Lock()
+	fired := w.stopFired
+	w.mu.Unlock()
+	if fired {
+		select {
+		case <-w.stopDone:
+		case <-time.After(10 * time.Second):
+			c.Note = "Signal did not return"
+		}
+	}
 	c.WallUs = time.Since(w.t0).Microseconds()
 	w.mu.Lock()
 	c.Events = append([]Ev{}, w.evs...)
@@ -280,7 +460,17 @@ func runCase(c *Case, id int, logDir string) {
 		c.Final = append(c.Final, Fin{St: int(st.Status), Rc: st.RetryCount, Dc: st.DoneCount})
 	}
 	c.Err = serr != nil
-	c.Status = int(sc.Status(g))
+	c.StatusEnd = int(sc.Status(g))
+	c.StartedUs = g.StartAt().Sub(w.t0).Microseconds()
+	if len(c.Handlers) == 4 {
+		for h := range c.Handlers {
+			if hn := sc.HandlerNode(handlerTypes[h]); hn != nil {
+				c.HFinal = append(c.HFinal, int(hn.State().Status))
+			} else {
+				c.HFinal = append(c.HFinal, -1)
+			}
+		}
+	}
 }
 
 // ---------------------------------------------------------------------------------------------
@@ -455,6 +645,207 @@ func wideCase(r *vh.Rng) Case {
 	return c
 }
 
+// ---------------------------------------------------------------------------------------------
+// streams with handlers, stop requests and timeouts (C04, C05)
+// ---------------------------------------------------------------------------------------------
+
+func hold(deps []int, durUs int) StepC { return StepC{Deps: deps, Pre: true, DurUs: durUs} }
+
+func handlerSet(mask int, r *vh.Rng, durUs int) []HandC {
+	hs := make([]HandC, 4)
+	for h := 0; h < 4; h++ {
+		hs[h] = HandC{On: mask>>uint(h)&1 == 1, Fail: r.Chance(1, 3), DurUs: durUs}
+	}
+	return hs
+}
+
+func prep(c *Case, r *vh.Rng, stream string) {
+	c.Stream = stream
+	c.Done = true
+	if c.PauseUs == 0 {
+		c.PauseUs = []int{200, 300, 500}[r.Below(3)]
+	}
+	c.Rs = r.Next()
+}
+
+// quiet runs with every subset of the four handlers
+func handlerCases(r *vh.Rng, perSubset int) []Case {
+	var out []Case
+	w := weights{2, 5, 1, 3, 1, 4, 1, 6, false, false}
+	for mask := 0; mask < 16; mask++ {
+		for k := 0; k < perSubset; k++ {
+			c := randomCaseN(r, 1+r.Below(4), w, r.Bool())
+			c.Handlers = handlerSet(mask, r, 0)
+			c.MaxActive = r.Below(3)
+			c.Policy = []string{"imm", "rnd", "quiet"}[r.Below(3)]
+			prep(&c, r, "handlers")
+			out = append(out, c)
+		}
+	}
+	return out
+}
+
+// small DAGs whose commands run for a few milliseconds unless somebody ends them
+func stopBases(r *vh.Rng) []Case {
+	d := func() int { return 3000 + r.Below(6)*1000 }
+	mk := func(steps ...StepC) Case { return Case{Steps: steps, Policy: "hold"} }
+	retry := hold([]int{}, d())
+	retry.Retry, retry.Rlimit, retry.IntervalUs, retry.Fails = true, 1, 4000, 1
+	cof := hold([]int{}, d())
+	cof.Cof, cof.Fails = true, -1
+	unmet := hold([]int{0}, d())
+	unmet.HasPre, unmet.Pre = true, false
+	ign := hold([]int{}, 9000)
+	ign.Ignore = true
+	sos := hold([]int{}, d())
+	sos.SigOnStop = "SIGINT"
+	bases := []Case{
+		mk(hold([]int{}, d())),
+		mk(hold([]int{}, d()), hold([]int{}, d())),
+		mk(hold([]int{}, d()), hold([]int{0}, d())),
+		mk(hold([]int{}, d()), hold([]int{0}, d()), hold([]int{1}, d())),
+		mk(hold([]int{}, d()), hold([]int{0}, d()), hold([]int{0}, d()), hold([]int{1, 2}, d())),
+		mk(retry, hold([]int{0}, d())),
+		mk(cof, hold([]int{0}, d())),
+		mk(hold([]int{}, d()), unmet, hold([]int{1}, d())),
+		mk(ign, hold([]int{}, d())),
+		mk(sos, hold([]int{0}, d())),
+		mk(hold([]int{1}, d()), hold([]int{}, d()), sos),
+	}
+	for i := range bases {
+		bases[i].MaxActive = r.Below(3)
+		bases[i].Handlers = handlerSet(8|1|r.Below(16), r, 0) // onCancel and onExit always configured here
+	}
+	return bases
+}
+
+// a stop at every visible event index of the unstopped run of each base
+func stopCases(r *vh.Rng, logDir string, reps int) []Case {
+	var out []Case
+	for bi, b := range stopBases(r) {
+		probe := b
+		prep(&probe, r, "stopprobe")
+		runCase(&probe, 900000+bi, logDir)
+		e := len(probe.Events)
+		for rep := 0; rep < reps; rep++ {
+			for at := 0; at <= e; at++ {
+				c := b
+				c.Steps = append([]StepC{}, b.Steps...)
+				c.Stop = &StopC{At: at, DelayUs: []int{0, 100, 500, 1500}[r.Below(4)]}
+				prep(&c, r, "stop")
+				out = append(out, c)
+			}
+		}
+	}
+	return out
+}
+
+// a stop that arrives while the handlers run (F4a)
+func stopHandlerCases(r *vh.Rng, logDir string, k int) []Case {
+	var out []Case
+	for i := 0; i < k; i++ {
+		s := hold([]int{}, 2000)
+		if r.Bool() {
+			s.Fails = -1
+		}
+		b := Case{Steps: []StepC{s}, Policy: "hold", Handlers: handlerSet(15, r, 6000)}
+		probe := b
+		prep(&probe, r, "stopprobe")
+		runCase(&probe, 910000+i, logDir)
+		at := -1
+		for j, e := range probe.Events {
+			if e.E == "hs" {
+				at = j + 1
+				break
+			}
+		}
+		if at < 0 {
+			continue
+		}
+		c := b
+		c.Stop = &StopC{At: at, DelayUs: 500 + r.Below(1500)}
+		prep(&c, r, "stophandler")
+		out = append(out, c)
+	}
+	return out
+}
+
+// the two windows: stop during a slow step precondition (loop between commit and launch), stop during a slow
+// executor creation (worker between its cancel test and Run)
+func windowCases(r *vh.Rng, k int) []Case {
+	var out []Case
+	for i := 0; i < k; i++ {
+		sp := hold([]int{}, 3000)
+		sp.HasPre, sp.SlowPreUs = true, 30000
+		c1 := Case{Steps: []StepC{sp}, Policy: "hold", Handlers: handlerSet(15, r, 0), Stop: &StopC{At: 0, DelayUs: 6000 + r.Below(8000)}}
+		prep(&c1, r, "slowpre")
+		sp2 := hold([]int{0}, 3000)
+		sp2.HasPre, sp2.SlowPreUs = true, 30000
+		c2 := Case{Steps: []StepC{hold([]int{}, 2000), sp2, hold([]int{}, 4000)}, Policy: "hold", Handlers: handlerSet(9, r, 0),
+			Stop: &StopC{At: 3, DelayUs: 12000 + r.Below(6000)}}
+		prep(&c2, r, "slowpre")
+		sc := hold([]int{}, 4000)
+		sc.SlowCreateUs = 20000
+		c3 := Case{Steps: []StepC{sc, hold([]int{0}, 2000)}, Policy: "hold", Handlers: handlerSet(9, r, 0), Stop: &StopC{At: 0, DelayUs: 4000 + r.Below(8000)}}
+		prep(&c3, r, "slowcreate")
+		out = append(out, c1, c2, c3)
+	}
+	return out
+}
+
+// escalation: a command that ignores the stop signal, then SIGKILL
+func escalateCases(r *vh.Rng, k int) []Case {
+	var out []Case
+	for i := 0; i < k; i++ {
+		ig := hold([]int{}, 40000)
+		ig.Ignore = true
+		c := Case{Steps: []StepC{ig, hold([]int{}, 5000)}, Policy: "hold", Handlers: handlerSet(9, r, 0),
+			Stop: &StopC{At: 1 + r.Below(2), DelayUs: 300 + r.Below(1500), Again: 1, AgainDelayUs: 3000}}
+		prep(&c, r, "escalate")
+		out = append(out, c)
+	}
+	return out
+}
+
+// repeating steps: the stop lands inside an iteration or between two iterations
+func repeatCases(r *vh.Rng, k int) []Case {
+	var out []Case
+	for i := 0; i < k; i++ {
+		rp := hold([]int{}, 2000)
+		rp.Repeat, rp.RepeatIvlUs = true, 5000
+		steps := []StepC{rp}
+		if r.Bool() {
+			steps = append(steps, hold([]int{}, 3000))
+		}
+		c := Case{Steps: steps, Policy: "hold", Handlers: handlerSet(9, r, 0),
+			Stop: &StopC{At: 1 + r.Below(6), DelayUs: []int{0, 500, 2500, 4000}[r.Below(4)]}}
+		prep(&c, r, "repeat")
+		out = append(out, c)
+	}
+	return out
+}
+
+// DAG timeouts that strike in the middle of the run
+func timeoutCases(r *vh.Rng, k int) []Case {
+	var out []Case
+	for i := 0; i < k; i++ {
+		d := func() int { return 5000 + r.Below(6)*1000 }
+		var steps []StepC
+		switch r.Below(3) {
+		case 0:
+			steps = []StepC{hold([]int{}, d())}
+		case 1:
+			steps = []StepC{hold([]int{}, d()), hold([]int{0}, d())}
+		default:
+			steps = []StepC{hold([]int{}, d()), hold([]int{}, d()), hold([]int{0, 1}, d())}
+		}
+		c := Case{Steps: steps, Policy: "hold", Handlers: handlerSet(4|1|r.Below(16), r, 0), TimeoutUs: 3000 + r.Below(12)*1000}
+		prep(&c, r, "timeout")
+		out = append(out, c)
+	}
+	return out
+}
+
 func finishCase(c *Case, r *vh.Rng, focus string) {
 	switch r.Below(6) {
 	case 0:
@@ -483,7 +874,7 @@ func runFresh(c *Case, id int, logDir string) {
 		return
 	}
 	cmd := exec.Command(os.Args[0], outp, "child", in)
-	cmd.Env = os.Environ()
+	cmd.Env = startEnv // the scheduler exports one variable per node id into this process; children get the original
 	if o, err := cmd.CombinedOutput(); err != nil {
 		c.Note = fmt.Sprintf("fresh process failed: %v %s", err, string(o))
 		return
@@ -519,7 +910,17 @@ func readCases(path string) []Case {
 	return out
 }
 
+var startEnv []string
+
 func main() {
+	if len(os.Args) > 3 && os.Args[2] == "slowpre" { // helper of slow preconditions: <self> - slowpre <us>
+		var us int
+		fmt.Sscanf(os.Args[3], "%d", &us)
+		time.Sleep(time.Duration(us) * time.Microsecond)
+		fmt.Println("1")
+		return
+	}
+	startEnv = os.Environ()
 	log.SetOutput(io.Discard)
 	os.Setenv("VERIF_PRE_MET", "1")
 	os.Unsetenv("VERIF_PRE_UNMET")
@@ -530,7 +931,11 @@ func main() {
 		if !ok {
 			return nil, errors.New("no such run")
 		}
-		return &scripted{w: w.(*world), idx: idx, ctx: ctx}, nil
+		ww := w.(*world)
+		if idx >= 0 && ww.c.Steps[idx].SlowCreateUs > 0 {
+			time.Sleep(time.Duration(ww.c.Steps[idx].SlowCreateUs) * time.Microsecond)
+		}
+		return &scripted{w: ww, idx: idx, ctx: ctx, killed: make(chan struct{})}, nil
 	})
 	out, err := vh.NewOut(os.Args[1])
 	if err != nil {
@@ -547,50 +952,78 @@ func main() {
 	if tier == "replay" || tier == "child" {
 		cases = readCases(os.Args[3])
 	} else {
-		nSmall, nRandom, nmax, nDry := 1500, 3600, 8, 120
-		if tier == "thorough" {
-			nSmall, nRandom, nmax, nDry = 20000, 60000, 12, 1500
-		}
-		if tier == "search" {
-			nSmall, nRandom, nmax, nDry = 1500, 4000, 10, 0
-		}
-		w := focusWeights(focus)
-		if tier == "thorough" { // the whole 1- and 2-step space
-			for n := 1; n <= 2; n++ {
-				for idx := uint64(0); idx < smallSpace(n); idx++ {
-					cases = append(cases, smallCase(n, idx))
+		if focus == "C04" || focus == "C05" {
+			logDir0, _ := os.MkdirTemp("", "verif-sched-probe")
+			mult := 1
+			if tier == "thorough" {
+				mult = 8
+			}
+			if tier == "search" {
+				mult = 3
+			}
+			if focus == "C04" {
+				cases = append(cases, handlerCases(rng, 8*mult)...)
+				cases = append(cases, stopHandlerCases(rng, logDir0, 6*mult)...)
+				cases = append(cases, stopCases(rng, logDir0, 1*mult)...)
+				cases = append(cases, windowCases(rng, 2*mult)...)
+			} else {
+				cases = append(cases, stopCases(rng, logDir0, 2*mult)...)
+				cases = append(cases, windowCases(rng, 4*mult)...)
+				cases = append(cases, escalateCases(rng, 6*mult)...)
+				cases = append(cases, repeatCases(rng, 16*mult)...)
+				cases = append(cases, timeoutCases(rng, 16*mult)...)
+				cases = append(cases, stopHandlerCases(rng, logDir0, 2*mult)...)
+			}
+			os.RemoveAll(logDir0)
+			for i := range cases {
+				cases[i].K = i
+			}
+		} else {
+			nSmall, nRandom, nmax, nDry := 1500, 3600, 8, 120
+			if tier == "thorough" {
+				nSmall, nRandom, nmax, nDry = 20000, 60000, 12, 1500
+			}
+			if tier == "search" {
+				nSmall, nRandom, nmax, nDry = 1500, 4000, 10, 0
+			}
+			w := focusWeights(focus)
+			if tier == "thorough" { // the whole 1- and 2-step space
+				for n := 1; n <= 2; n++ {
+					for idx := uint64(0); idx < smallSpace(n); idx++ {
+						cases = append(cases, smallCase(n, idx))
+					}
 				}
 			}
-		}
-		for i := 0; i < nSmall; i++ {
-			n := 1 + rng.Below(3)
-			if rng.Chance(2, 3) {
-				n = 3
+			for i := 0; i < nSmall; i++ {
+				n := 1 + rng.Below(3)
+				if rng.Chance(2, 3) {
+					n = 3
+				}
+				cases = append(cases, smallCase(n, rng.Next()%smallSpace(n)))
 			}
-			cases = append(cases, smallCase(n, rng.Next()%smallSpace(n)))
-		}
-		for i := 0; i < nRandom; i++ {
-			cases = append(cases, randomCase(rng, 4, nmax, w))
-		}
-		nWide := 100
-		if tier == "thorough" {
-			nWide = 800
-		}
-		if tier == "search" {
-			nWide = 200
-		}
-		for i := 0; i < nWide; i++ {
-			cases = append(cases, wideCase(rng))
-		}
-		for i := 0; i < nDry; i++ {
-			c := randomCase(rng, 2, 7, w)
-			c.Stream = "dry"
-			c.Dry = true
-			cases = append(cases, c)
-		}
-		for i := range cases {
-			finishCase(&cases[i], rng, focus)
-			cases[i].K = i
+			for i := 0; i < nRandom; i++ {
+				cases = append(cases, randomCase(rng, 4, nmax, w))
+			}
+			nWide := 100
+			if tier == "thorough" {
+				nWide = 800
+			}
+			if tier == "search" {
+				nWide = 200
+			}
+			for i := 0; i < nWide; i++ {
+				cases = append(cases, wideCase(rng))
+			}
+			for i := 0; i < nDry; i++ {
+				c := randomCase(rng, 2, 7, w)
+				c.Stream = "dry"
+				c.Dry = true
+				cases = append(cases, c)
+			}
+			for i := range cases {
+				finishCase(&cases[i], rng, focus)
+				cases[i].K = i
+			}
 		}
 	}
 	logDir, err := os.MkdirTemp("", "verif-sched-logs")
